@@ -411,4 +411,26 @@ theorem entries_perm (sel : Nat → Nat → Bool) (parts : List Int) (ms : List 
   exact List.Perm.flatMap_right _ hp.symm
 
 
+/-! ## strides; invariance under the listing order -/
+
+theorem pick_eq_zipIdx (sel : Nat → Bool) : ∀ (l : List Int) (j : Nat),
+    pick sel j l = ((l.zipIdx j).filter (fun x => sel x.2)).map (·.1)
+  | [], _ => rfl
+  | p :: ps, j => by
+    have ih := pick_eq_zipIdx sel ps (j + 1)
+    unfold pick
+    by_cases h : sel j <;> simp [List.zipIdx_cons, List.filter_cons, h, ih]
+
+theorem pick_rr_stride (M i : Nat) (l : List Int) : pick (rrSel M i) 0 l = stride M i l := by
+  rw [pick_eq_zipIdx]; rfl
+
+/-- the sorted member list of a topic depends only on the set of members -/
+theorem findMembers_perm_invariant (ms ms' : List Member) (hp : ms.Perm ms') (h : WellFormed ms) (t : Nat) :
+    findMembersByTopic ms t = findMembersByTopic ms' t := by
+  obtain ⟨hd, ho⟩ := wf_split h
+  have hd' : IdsDistinct ms' := hd.perm hp
+  have ho' : TopicsOnce ms' := fun m hm => ho m (hp.mem_iff.mpr hm)
+  apply strict_sorted_unique _ _ _ (findMembers_strict ms t hd ho) (findMembers_strict ms' t hd' ho')
+  exact (findMembers_perm ms t ho).trans ((hp.filter _).trans (findMembers_perm ms' t ho').symm)
+
 end KV.GroupBalancer
